@@ -328,6 +328,12 @@ def probes_radiation(ctx, rad, specs, sh, cs, sc, jnp, units, grid_names):
   for pi in range(nprobe):
     o, s = _phase(rng, pi), _phase(rng, 99 if pi >= 7 else 6 - pi)
     mean, var, _ = _mean_var(rng, pi, rad, specs)
+    directed = {6: (np.pi, 0), 7: (np.pi, 1), 12: (0.0, 0), 13: (0.0, 1)}.get(pi)
+    if directed is not None:
+      # aphelion / perihelion with the module's own constants (SI and non-dimensional): the extremes of the
+      # irradiance, where `variation <= mean` is needed for non-negativity
+      o = float(rad.PERIHELION) + directed[0]
+      mean, var, _ = _mean_var(rng, directed[1], rad, specs)
     n = 64
     lon = rng.uniform(0, TWO_PI, n)
     lat = np.arcsin(rng.uniform(-1, 1, n))
